@@ -21,6 +21,7 @@ import time
 
 VERIF = os.path.abspath(os.path.join(os.path.dirname(__file__), '..', '..'))
 REPO = os.environ.get('JUG_REPO', '/repo')
+CURRENT_INPUT = {}      # what the code under test is being run on right now (included in the replay when it raises unexpectedly)
 LEAN_DIR = os.path.join(VERIF, 'lean')
 GEN_DIR = os.path.join(LEAN_DIR, 'JugModel', 'Generated')
 OUT_DIR = os.path.join(VERIF, 'out')
